@@ -5,6 +5,7 @@ import (
 	"fmt"
 	"sort"
 	"strings"
+	"time"
 
 	sdkmath "cosmossdk.io/math"
 	basketkeeper "github.com/KiraCore/sekai/x/basket/keeper"
@@ -19,7 +20,7 @@ import (
 	sdk "github.com/cosmos/cosmos-sdk/types"
 )
 
-func init() { props["C07"] = func(r *Rec) { runC07(r); recFor(r, "C07") } }
+func init() { props["C07"] = func(r *Rec) { runC07(r); c07BlacklistedCarriers(r); recFor(r, "C07") } }
 
 func u32s(l []uint32) string {
 	if len(l) == 0 {
@@ -835,4 +836,101 @@ func runC07(r *Rec) {
 		}
 	}
 	r.Extra["rule"] = "random edit histories over the 11 keeper edit functions (5 accounts, up to 5 roles, 5 permissions) with full record/index/voter/check observations; exhaustive small scope (1 actor x 2 roles assigned-or-not x 2 permissions x {none,wl,bl} per slot = 2916 configurations; quick tier takes every 7th, offset by the seed); gated msg-server methods called with / without / blacklisted. A case is non-trivial when the op succeeded or a configuration was fully evaluated; distinct by (step or configuration id, outcome)."
+}
+
+// c07BlacklistedCarriers: the eligible voters of a proposal are exactly the carriers of the vote permission's WHITELIST -
+// individually or through a role - whether or not some of them also have it blacklisted (those cannot vote, they still
+// count). Four role members, two of them blacklisted individually, one yes vote: the turnout is measured against all
+// carriers. Real blocks; the verdict is compared with the model's tally over the distinct carriers (`gov local-tally`).
+func c07BlacklistedCarriers(r *Rec) {
+	label := "carriers of the vote permission with a blacklist entry still count as eligible voters"
+	r.Mark(label)
+	w := NewWorld(WorldOpts{NAcc: 7, NVal: 1, SudoAccs: []int{6}})
+	gk := w.app.CustomGovKeeper
+	gms := govkeeper.NewMsgServerImpl(gk)
+	perm := govtypes.PermVoteSetNetworkPropertyProposal
+	var pid uint64
+	carriers := 0
+	quorum := ""
+	setupErr := ""
+	refusedBlacklisted := true
+	br := w.Block(nil, BlockOpts{Dt: 6 * time.Second, Mid: func(ctx sdk.Context) {
+		role := gk.CreateRole(ctx, "voters", "d")
+		if err := gk.WhitelistRolePermission(ctx, role, perm); err != nil {
+			setupErr = err.Error()
+			return
+		}
+		for i := 0; i < 4; i++ {
+			if err := gk.AssignRoleToAccount(ctx, w.addrs[i], role); err != nil {
+				setupErr = err.Error()
+				return
+			}
+		}
+		for _, i := range []int{2, 3} {
+			a, _ := gk.GetNetworkActorByAddress(ctx, w.addrs[i])
+			if err := gk.AddBlacklistPermission(ctx, a, perm); err != nil {
+				setupErr = err.Error()
+				return
+			}
+		}
+		carriers = len(gk.GetNetworkActorsByAbsoluteWhitelistPermission(ctx, perm))
+		quorum = gk.GetNetworkProperties(ctx).VoteQuorum.String()
+		cur, _ := gk.GetNetworkProperty(ctx, govtypes.MinTxFee)
+		m, err := govtypes.NewMsgSubmitProposal(w.addrs[6], "t", "d", govtypes.NewSetNetworkPropertyProposal(govtypes.MinTxFee, govtypes.NetworkPropertyValue{Value: cur.Value + 3}))
+		if err != nil {
+			setupErr = err.Error()
+			return
+		}
+		if err := withCache(ctx, func(cc sdk.Context) error {
+			res, e := gms.SubmitProposal(sdk.WrapSDKContext(cc), m)
+			if e == nil {
+				pid = res.ProposalID
+			}
+			return e
+		}); err != nil {
+			setupErr = err.Error()
+			return
+		}
+		if err := withCache(ctx, func(cc sdk.Context) error {
+			_, e := gms.VoteProposal(sdk.WrapSDKContext(cc), govtypes.NewMsgVoteProposal(pid, w.addrs[0], govtypes.OptionYes, sdk.ZeroDec()))
+			return e
+		}); err != nil {
+			setupErr = "vote: " + err.Error()
+		}
+		if err := withCache(ctx, func(cc sdk.Context) error {
+			_, e := gms.VoteProposal(sdk.WrapSDKContext(cc), govtypes.NewMsgVoteProposal(pid, w.addrs[2], govtypes.OptionYes, sdk.ZeroDec()))
+			return e
+		}); err == nil {
+			refusedBlacklisted = false
+		}
+	}})
+	if br.Panicked != nil || setupErr != "" || pid == 0 {
+		r.Count("blacklisted-carriers:setup-failed")
+		r.Notes = append(r.Notes, label+": set-up failed: "+setupErr+fmt.Sprint(br.Panicked))
+		return
+	}
+	w.ApplyUpdates(br.Updates)
+	if !refusedBlacklisted {
+		r.Fail("C07/vote/blacklisted-carrier-voted", label+": account 2 has the vote permission blacklisted and voted", nil)
+		return
+	}
+	result := govtypes.Pending
+	for b := 0; b < 40 && result == govtypes.Pending; b++ {
+		br := w.Block(nil, BlockOpts{Dt: 60 * time.Second})
+		if br.Panicked != nil {
+			r.Count("blacklisted-carriers:block-panicked")
+			return
+		}
+		w.ApplyUpdates(br.Updates)
+		if p, ok := gk.GetProposal(w.ReadCtx(), pid); ok {
+			result = p.Result
+		}
+	}
+	var accs []string
+	for i := 0; i < carriers; i++ {
+		accs = append(accs, fmt.Sprint(i))
+	}
+	r.Op(fmt.Sprintf("gov local-tally q=%s accs=%s role=- y=1 n=0 a=0 v=0 o=0", quorum, strings.Join(accs, ",")), resName(result))
+	r.Count(fmt.Sprintf("blacklisted-carriers:%d-carriers:%s", carriers, resName(result)))
+	r.Case(label, true)
 }
